@@ -83,6 +83,8 @@ def _run_one(args):
                 _index.set_overlay({})
             known = known_keys(load_known())
             new_v = [v for v in ctx.violations() if v.key() not in known]
+            if ctx.analysis_errors and not new_v:
+                return {"id": mid, "status": "analysis-error", "why": "; ".join(ctx.analysis_errors)[:300]}
             return {"id": mid, "status": "violation" if new_v else "silent",
                     "rules": sorted({v.rule for v in new_v}),
                     "first": (new_v[0].msg[:200] if new_v else "")}
